@@ -176,7 +176,12 @@ where
 
     fn poll_shutdown(mut self: Pin<&mut Self>, cx: &mut Context<'_>) -> Poll<io::Result<()>> {
         match self.state {
-            TlsState::Handshake(_) => Poll::Ready(Ok(())),
+            // No TLS session exists yet, so there is nothing to say goodbye to: close the
+            // transport, so that the peer sees the end of the stream.
+            TlsState::Handshake(ref mut accept) => match accept.get_mut() {
+                Some(stream) => Pin::new(stream).poll_shutdown(cx),
+                None => Poll::Ready(Ok(())),
+            },
             TlsState::Streaming(ref mut stream) => Pin::new(stream).poll_shutdown(cx),
         }
     }
